@@ -2562,7 +2562,14 @@ impl XmlElement {
     fn find_nameapce_uri(&self, prefix: &str) -> error::Result<Option<NamespaceUri>> {
         for namespace in self.namespace_attributes().iter() {
             if prefix == namespace.borrow().local_name() {
-                return Ok(Some(NamespaceUri::try_from(&namespace)?));
+                let uri = NamespaceUri::try_from(&namespace)?;
+                // xmlns="" leaves the element without a namespace name
+                // (Namespaces in XML 1.0, 6.2)
+                return Ok(if uri.value().is_empty() {
+                    None
+                } else {
+                    Some(uri)
+                });
             }
         }
 
